@@ -579,6 +579,8 @@ class Model:
                 self.ln_add(1)
             self.emit(["I", str(c)])
             self.f("yyinput")
+            if c == 0:
+                return      # the harness loop stops at a value <= 0 (NUL or end value)
 
     # ------------------------------------------------------------------ EOF
     def wrap(self):
@@ -749,7 +751,7 @@ def parse_log(text):
     out = []
     for line in text.splitlines():
         line = line.strip()
-        if not line:
+        if not line or line.startswith("#"):
             continue
         out.append(line.split())
     return out
